@@ -115,10 +115,12 @@ func (m mset) clone() mset {
 	return out
 }
 
-var psAttrs = []string{"a", "b", "#", "ab", "\u00e9", "e\u0301", "##"}
+// (the last entries read like several steps when a path is written as text:
+// .a.b / ["a.b"], .a["b"] / ["a[\"b\"]"], .a[1] / ["a[1]"])
+var psAttrs = []string{"a", "b", "#", "ab", "\u00e9", "e\u0301", "##", "a.b", `a["b"]`, "a[1]"}
 var psNums = []spec.Num{spec.NInt(0), spec.NInt(1), spec.NInt(2), spec.NFloat(1), spec.NParse("1.0"), spec.NParse("2"), spec.NFloat(0),
 	{Route: "negzero"}, {Route: "big", Text: "1", Prec: 24}, spec.NFloat(1.5), spec.NParse("1.5"), spec.NInt(-1), spec.NParse("0.25"), {Route: "uint", Text: "2"}}
-var psStrs = []string{"a", "b", "#", "\u00e9", "e\u0301", "", "ab"}
+var psStrs = []string{"a", "b", "#", "\u00e9", "e\u0301", "", "ab", "1", `a"]["b`}
 
 func genPSStep(t *rapid.T, unknowns bool) PStep {
 	switch rapid.IntRange(0, 9).Draw(t, "pskind") {
